@@ -237,6 +237,11 @@ class LinearComparer(CorrelatedComparer):
             for mode, error in zip(filtered_modes, errors)
         ]
 
+        # No relationship can be checked (e.g., comparing with zero when neither
+        # 'equals' nor 'offset' is configured): no credit
+        if not results:
+            return {'grade_decimal': 0, 'msg': ''}
+
         # Get the best result using max.
         # For a list of pairs, max compares by 1st index and uses 2nd to break ties
         key = lambda result: (result['grade_decimal'], result['msg'])
